@@ -1,5 +1,6 @@
 """RT-DC dataset core classes and methods"""
 
+import numbers
 import warnings
 
 import numpy as np
@@ -146,7 +147,15 @@ class Filter(object):
         allkeys = list(cfg_cur.keys())
         allkeys += [k for k in cfg_old.keys() if k not in cfg_cur]
         for skey in allkeys:
-            if cfg_cur.get(skey, None) != cfg_old.get(skey, None):
+            vcur = cfg_cur.get(skey, None)
+            vold = cfg_old.get(skey, None)
+            if (isinstance(vcur, numbers.Real)
+                    and isinstance(vold, numbers.Real)):
+                # Compare numbers as Python floats. With NumPy>=2, the
+                # comparison of e.g. an `np.float32` with a Python float
+                # is done in single precision, hiding small changes.
+                vcur, vold = float(vcur), float(vold)
+            if vcur != vold:
                 newkeys.append(skey)
                 oldvals.append(cfg_old.get(skey, None))
                 newvals.append(cfg_cur.get(skey, None))
